@@ -87,6 +87,9 @@ def parse_tlc(out, res):
         res.violated = m.group(1)
     if "Error: Temporal properties were violated" in out:
         res.violated = "temporal"
+    m = re.search(r"Error: Temporal property (\S+) was violated", out)
+    if m:
+        res.violated = m.group(1)
     if re.search(r"Error: Deadlock reached", out):
         res.violated = "deadlock"
     if re.search(r"[Pp]ost-?condition", out) and "Error:" in out and res.violated is None:
